@@ -197,8 +197,11 @@ func (b *Bytecode) RemoveDuplicates() {
 				deduped = append(deduped, c)
 			}
 		default:
-			panic(fmt.Errorf("unsupported top-level constant type: %s",
-				c.TypeName()))
+			// any other object (e.g. the value of a custom Importable that
+			// is not a module map) is kept as it is
+			newIdx := len(deduped)
+			indexMap[curIdx] = newIdx
+			deduped = append(deduped, c)
 		}
 	}
 
